@@ -742,6 +742,76 @@ def subst_ivar(e: Expr, ivar: str, to) -> Expr:
     return rec(e)
 
 
+def subst_ivar_expr(e: Expr, ivar: str, to: Expr) -> Optional[Expr]:
+    """Replace index variable `ivar` by an integer-valued expression. Possible when `ivar` only occurs as a position
+    value (IV nodes), not as the row of an input atom or a selector; None otherwise."""
+    if ivar not in free_ivars(e):
+        return e
+    for x in walk(e):
+        if x[0] == "in" and any(isinstance(i, tuple) and i[0] == ivar for i in x[2]):
+            return None
+        if x[0] == "sel" and x[1] == ivar:
+            return None
+        if x[0] in ("sum",) and x[1] == ivar:
+            return None
+        if x[0] == "red" and x[2] == ivar:
+            return None
+
+    def g(x):
+        if x[0] == "iv" and x[1] == ivar:
+            return add(to, Num(x[2])) if x[2] else to
+        return None
+    return rebuild_shallow_all(e, g)
+
+
+def rebuild_shallow_all(e: Expr, g) -> Expr:
+    """bottom-up rebuild through the normalising constructors; g(x) may return a replacement for a node"""
+    r = g(e)
+    if r is not None:
+        return r
+    t = e[0]
+    rec = lambda y: rebuild_shallow_all(y, g)
+    if t == "lin":
+        out = Num(e[2])
+        for y, k in e[1]:
+            out = add(out, scale(rec(y), k))
+        return out
+    if t == "mul":
+        out = ONE
+        for y in e[1]:
+            out = mul(out, rec(y))
+        return out
+    if t == "div":
+        return div(rec(e[1]), rec(e[2]))
+    if t == "pow":
+        return power(rec(e[1]), rec(e[2]))
+    if t == "fn":
+        return fn(e[1], *[rec(y) for y in e[2]])
+    if t == "ite":
+        return ITE(rec(e[1]), rec(e[2]), rec(e[3]))
+    if t == "choice":
+        return Choice([rec(y) for y in e[1]])
+    if t == "cmp":
+        return Cmp(e[1], rec(e[2]), rec(e[3]))
+    if t == "not":
+        return Not(rec(e[1]))
+    if t == "and":
+        return And(*[rec(y) for y in e[1]])
+    if t == "or":
+        return Or(*[rec(y) for y in e[1]])
+    if t == "at":
+        return At(e[1], rec(e[2]), tuple(rec(y) if isinstance(y, Expr) else y for y in e[3]))
+    if t == "opq":
+        return Opq(e[1], tuple(rec(y) if isinstance(y, Expr) else y for y in e[2]), e[3])
+    if t == "sum":
+        return Sum(e[1], e[2], rec(e[3]))
+    if t == "red":
+        return Red(e[1], e[2], e[3], rec(e[4]))
+    if t == "sel":
+        return Sel(e[1], tuple(rec(a) for a in e[2]))
+    return e
+
+
 def subst(e: Expr, mapping: Dict[Expr, Expr]) -> Expr:
     def f(x):
         return mapping.get(x, x)
